@@ -33,6 +33,9 @@ type vhfsFS struct {
 	gateRelease chan struct{}
 	watchKey    [2]int
 	watched     chan struct{}
+
+	// fault (vhgRenamedPanic): the Renamed callback of the File with this handle panics, after it was logged
+	panicRenamed int
 }
 
 type vhfsFile struct {
@@ -43,7 +46,7 @@ type vhfsFile struct {
 }
 
 func vhfsNew(wga bool, inject map[int]int) *vhfsFS {
-	return &vhfsFS{entries: map[[2]int]int{}, dirs: map[int]bool{1: true}, nextIno: 2, inject: inject, wga: wga}
+	return &vhfsFS{entries: map[[2]int]int{}, dirs: map[int]bool{1: true}, nextIno: 2, inject: inject, wga: wga, panicRenamed: -1}
 }
 
 func vhfsName(id int) string { return "n" + strconv.Itoa(id) }
@@ -314,6 +317,12 @@ func (f *vhfsFile) mkObj(nm int, dir bool) (int, int) {
 }
 
 func (f *vhfsFile) Create(name string, flags OpenFlags, permissions FileMode, uid UID, gid GID) (File, QID, uint32, error) {
+	nf, q, u, err := f.createL(name, flags)
+	f.fs.park(5, f.id, vhfsNameID(name))
+	return nf, q, u, err
+}
+
+func (f *vhfsFile) createL(name string, flags OpenFlags) (File, QID, uint32, error) {
 	fs := f.fs
 	fs.mu.Lock()
 	defer fs.mu.Unlock()
@@ -431,8 +440,14 @@ func (f *vhfsFile) Renamed(parent File, newName string) {
 	p := parent.(*vhfsFile)
 	nm := vhfsNameID(newName)
 	fs.begin(10, f.id, p.id, nm)
-	f.path = append(append([]int{}, p.path...), nm)
+	boom := fs.panicRenamed == f.id
+	if !boom {
+		f.path = append(append([]int{}, p.path...), nm)
+	}
 	fs.mu.Unlock()
+	if boom {
+		panic("vhfs: injected panic in Renamed")
+	}
 	fs.park(10, f.id, 0)
 }
 
